@@ -465,9 +465,9 @@ theorem shrink_dropObs (env : Env) (o : Nat) (tokens : Array Nat) :
     · exact Obs.Pres.bind (shrink_disallowFutureUse o) fun _ => Obs.Pres.pure _
     · exact Obs.Pres.pure _
 
-theorem shrink_dropVar (env : Env) (v : Nat) (tokens : Array Nat) :
-    Obs.Pres Shrink (stepAction env (.dropVar v) tokens) := by
-  simp only [stepAction]
+/-- dropping a `Var` handle (as an API action or as an effect of user code) -/
+theorem shrink_dropVarHandle (v : Nat) : Obs.Pres Shrink (dropVarHandle v) := by
+  unfold dropVarHandle
   refine Obs.Pres.bind (Obs.Pres.getVar v) fun vc => ?_
   split
   · exact Obs.Pres.pure _
@@ -477,6 +477,66 @@ theorem shrink_dropVar (env : Env) (v : Nat) (tokens : Array Nat) :
     · exact Obs.Pres.bind (Obs.Pres.modify fun s => Shrink.of_eq rfl rfl rfl rfl rfl rfl rfl rfl)
         fun _ => Obs.Pres.pure _
     · exact Obs.Pres.pure _
+
+theorem shrink_dropVar (env : Env) (v : Nat) (tokens : Array Nat) :
+    Obs.Pres Shrink (stepAction env (.dropVar v) tokens) := by
+  simp only [stepAction]
+  refine Obs.Pres.bind (shrink_dropVarHandle v) fun b => ?_
+  split <;> exact Obs.Pres.pure _
+
+/-! ## closed form of dropping a `Var` handle -/
+
+/-- the state after one `Var` handle of `v` (cell `vc`, `vc.handles ≠ 0`) was dropped -/
+def varDropped (s : State) (v : Nat) (vc : VarCell) : State :=
+  { s with
+    vars := s.vars.modify v fun x => { x with handles := x.handles - 1 },
+    deadVars := if vc.handles = 1 then s.deadVars ++ [v] else s.deadVars }
+
+theorem dropVarHandle_run (s : State) (v : Nat) (vc : VarCell) (h : s.vars[v]? = some vc) :
+    (dropVarHandle v).run.run s =
+      (.ok (decide (vc.handles ≠ 0)), if vc.handles = 0 then s else varDropped s v vc) := by
+  simp only [dropVarHandle, getVar, Obs.run_bind, Obs.run_get, h, Obs.run_pure]
+  by_cases h0 : vc.handles = 0
+  · simp only [h0, beq_self_eq_true, if_true, Obs.run_pure]; rfl
+  · have hb : (vc.handles == 0) = false := by simpa using h0
+    have hd : decide (vc.handles ≠ 0) = true := by simpa using h0
+    simp only [hd, hb, Bool.false_eq_true, if_false, h0, modVar, Obs.run_bind, Obs.run_modify]
+    by_cases h1 : vc.handles = 1
+    · simp only [h1, beq_self_eq_true, if_true, Obs.run_bind, Obs.run_modify, Obs.run_pure, varDropped]
+    · have hb1 : (vc.handles == 1) = false := by simpa using h1
+      simp only [hb1, h1, Bool.false_eq_true, if_false, Obs.run_pure, varDropped]
+
+theorem dropVarHandle_run_none (s : State) (v : Nat) (h : s.vars[v]? = none) :
+    (dropVarHandle v).run.run s = (.error (.site "model:no-such-var"), s) := by
+  simp only [dropVarHandle, getVar, Obs.run_bind, Obs.run_get, h, Engine.panic, Obs.run_throw]
+
+
+/-- the effect `.dropVar v` of user code is `dropVarHandle v` with the result discarded -/
+theorem dropVar_effect_run (env : Env) (s : State) (v : Nat) (vc : VarCell) (h : s.vars[v]? = some vc) :
+    (runEffectBasic env (.dropVar v)).run.run s =
+      (.ok (), if vc.handles = 0 then s else varDropped s v vc) := by
+  simp only [runEffectBasic, Functor.discard]
+  rw [LawfulFunctor.map_const]
+  show (Function.const Bool () <$> dropVarHandle v).run.run s = _
+  rw [← bind_pure_comp, Obs.run_bind, dropVarHandle_run s v vc h]
+  rfl
+
+/-- the API action `.dropVar v` -/
+theorem dropVar_action_run (env : Env) (tokens : Array Nat) (s : State) (v : Nat) (vc : VarCell)
+    (h : s.vars[v]? = some vc) :
+    (stepAction env (.dropVar v) tokens).run.run s =
+      (.ok (if vc.handles = 0 then "noop" else "ok", tokens),
+       if vc.handles = 0 then s else varDropped s v vc) := by
+  simp only [stepAction, Obs.run_bind, dropVarHandle_run s v vc h]
+  by_cases h0 : vc.handles = 0 <;> simp [h0] <;> rfl
+
+theorem varDropped_getElem? (s : State) (v : Nat) (vc : VarCell) (h : s.vars[v]? = some vc) :
+    (varDropped s v vc).vars[v]? = some { vc with handles := vc.handles - 1 } := by
+  simp [varDropped, Array.getElem?_modify, h]
+
+theorem varDropped_getElem?_ne (s : State) (v w : Nat) (vc : VarCell) (hw : w ≠ v) :
+    (varDropped s v vc).vars[w]? = s.vars[w]? := by
+  simp [varDropped, Array.getElem?_modify, Ne.symm hw]
 
 /-! ## concrete states for the non-vacuity examples of `Props/C12.lean` -/
 
